@@ -180,9 +180,7 @@ Others(vias, items, pl) == {Plan("extras", 0, 0, {"distinct"}, pl, vias, {"plain
                         Plan("image", 0, 0, {"distinct"}, {"body"}, vias, {"plain"}, TRUE, 0)}
 
 PlanQuick ==
-  { Seg(0, 2, {"distinct"}, AllPl, {"doc"}, {"plain"}, FALSE),                \* every segmentation with <= 2 cuts, everywhere
-    Seg(0, 2, {"distinct"}, {"body", "header"}, {"doc"}, {}, TRUE),           \* ... with partial / no data
-    Seg(0, 1, {"distinct"}, AllPl, {"doc"}, {}, TRUE),
+  { Seg(0, 2, {"distinct"}, AllPl, {"doc"}, {"plain"}, TRUE),                 \* every segmentation with <= 2 cuts, everywhere, all/partial/no data
     Seg(3, 3, {"distinct"}, {"body"}, {"doc"}, {"plain"}, FALSE),             \* every segmentation with 3 cuts
     Seg(0, 1, {"distinct"}, AllPl, {"doc"}, AllCls \ {"plain"}, FALSE),       \* value classes x placement
     Seg(1, 2, {"same", "alt", "none"}, {"body"}, {"doc"}, {"plain"}, FALSE),  \* runs that share / lack formatting
